@@ -49,6 +49,7 @@ var c01Paths = func() []string {
 type c01Case struct {
 	Routes  []refmodel.RouteDef `json:"routes"`
 	Methods []string            `json:"request_methods"`
+	Via     []string            `json:"registered_via,omitempty"` // registration API per route ("" = Add)
 }
 
 var c01MethodSets = [][]string{{"GET"}, {"POST"}, {"GET", "POST"}, {"PUT", "DELETE", "GET"}}
@@ -114,6 +115,20 @@ func c01Gen(tier string, emit func(c01Case)) {
 		emit(c01Case{Routes: defs, Methods: reqM})
 	}
 	permute(c01Pool, 1, withSets)
+	// every pattern through every registration API (single route), and every ordered pair through rotating APIs
+	for _, api := range regAPIs {
+		for _, p := range c01Pool {
+			for _, ms := range msets {
+				emit(c01Case{Routes: []refmodel.RouteDef{{Path: p, Methods: ms}}, Methods: reqM, Via: []string{api}})
+			}
+		}
+	}
+	n := 0
+	permute(c01Pool, 2, func(pats []string) {
+		n++
+		emit(c01Case{Routes: []refmodel.RouteDef{{Path: pats[0], Methods: []string{"GET"}}, {Path: pats[1], Methods: []string{"GET", "POST"}}}, Methods: reqM,
+			Via: []string{regAPIs[n%len(regAPIs)], regAPIs[(n/len(regAPIs)+1)%len(regAPIs)]}})
+	})
 	permute(c01Pool, 2, withSets)
 	if tier == "quick" {
 		permute(c01Pool, 3, allGet)
@@ -138,9 +153,9 @@ func c01Run(c c01Case, st *fw.Stats) []fw.Viol {
 		panic(err)
 	}
 	rec := &hitRec{}
-	r, pv := buildRouter(c.Routes, rec)
+	r, pv := buildRouterVia(c.Routes, c.Via, rec)
 	if pv != nil {
-		add("register:panic", fmt.Sprintf("table [%s]: registration panicked: %v", defsString(c.Routes), pv))
+		add("register:panic", fmt.Sprintf("table [%s] (registered via %v): registration panicked: %v", defsString(c.Routes), c.Via, pv))
 		return viols
 	}
 	for _, m := range c.Methods {
@@ -160,6 +175,15 @@ func c01Run(c c01Case, st *fw.Stats) []fw.Viol {
 			q := tb.Qualifying(m, want.Path)
 			if len(q) >= 2 || (want.Route > 0) {
 				st.Nontrivial++
+			}
+			// QuickMatch (no upper-casing of the method) must agree with Match for upper-case methods
+			if pv := try(func() {
+				rt2, _, _ := r.QuickMatch(m, p)
+				if routeIdx(rt2) != gotIdx {
+					add("quickmatch:differs", fmt.Sprintf("table [%s]: QuickMatch(%s,%q) -> route %d, Match -> route %d", defsString(c.Routes), m, p, routeIdx(rt2), gotIdx))
+				}
+			}); pv != nil {
+				add("match:panic", fmt.Sprintf("table [%s]: QuickMatch(%s,%q) panicked: %v", defsString(c.Routes), m, p, pv))
 			}
 			if gotIdx != want.Route {
 				var wp, gp *refmodel.Pattern
@@ -181,7 +205,7 @@ func c01Run(c c01Case, st *fw.Stats) []fw.Viol {
 				if want.Route >= 0 && wp.P != nil && len(wp.Vars) == 0 && wp.FirstSeg != "" {
 					sig += ":want-novar-optional-multiseg"
 				}
-				add(sig, fmt.Sprintf("table [%s]: %s %q: dispatched to route %d, the documented rule selects %d (qualifying routes %v, %s)", defsString(c.Routes), m, p, gotIdx, want.Route, q, want.Kind))
+				add(sig, fmt.Sprintf("table [%s]%s: %s %q: dispatched to route %d, the documented rule selects %d (qualifying routes %v, %s)", defsString(c.Routes), viaNote(c.Via), m, p, gotIdx, want.Route, q, want.Kind))
 				continue
 			}
 			if gotIdx >= 0 {
@@ -218,7 +242,7 @@ func c01Run(c c01Case, st *fw.Stats) []fw.Viol {
 var c01Spec = fw.Spec[c01Case]{
 	ID:    "C01",
 	Level: "model_checking",
-	Rule: "complete product: ordered route tables of <=K distinct patterns from a 27-pattern pool (every index/tier shortcut has colliding members) x method sets x request methods x all 259 paths of <=3 segments over {a,b,a.b,axb,12,q.html}; " +
+	Rule: "complete product: ordered route tables of <=K distinct patterns from a 27-pattern pool (every index/tier shortcut has colliding members) x method sets x registration APIs (Add, AddRoute(NewRoute), AddNamed, NewNamedRoute.AttachTo, GET/POST/... helpers, options via WithOptions) x request methods x all 259 paths of <=3 segments over {a,b,a.b,axb,12,q.html}; " +
 		"each (table,method,path) is one evaluation: Router.Match and ServeHTTP on the real router vs refmodel.Resolve; non-trivial = at least two routes qualify or the winner is not the first registered route",
 	Assume: []string{
 		"patterns and paths are drawn from the stated alphabets; larger tables are covered only as far as the small-scope hypothesis goes",
@@ -239,6 +263,13 @@ var c01Spec = fw.Spec[c01Case]{
 		return nil
 	},
 	Batch: 8,
+}
+
+func viaNote(via []string) string {
+	if len(via) == 0 {
+		return ""
+	}
+	return fmt.Sprintf(" (registered via %v)", via)
 }
 
 func init() {
